@@ -66,4 +66,25 @@ theorem poll_spec {s : St} {a : Sp} (h : Rel s a) (op : Op) (hop : op.isAsync = 
     simp only [g1, g2, hr, Bool.not_true, Bool.false_eq_true, if_false]
     exact ⟨trivial, q1, by rw [l2, l1]⟩
 
+/-- **No lost wake-up window.** If the first attempt of a poll is refused and another stage makes the operation possible while
+    the waker is being registered, the same poll still completes (second attempt): the task does not go to sleep on a
+    condition that is already true. -/
+theorem pollWith_completes {s : St} {a : Sp} (h : Rel s a) (op e : Op) (hop : op.isAsync = true) (hal : Allowed s a op)
+    (href : (a.step op).2.refused = true)
+    (hale : Allowed (step s op).1 a e)
+    (hal2 : Allowed (step (step s op).1 e).1 (a.step e).1 op)
+    (hen : ((a.step e).1.step op).2.refused = false) :
+    ∃ o, (pollWith s op e).2 = .ready o ∧ o = (step (step (step s op).1 e).1 op).2 := by
+  obtain ⟨r1, r2⟩ := step_refines h op hal
+  have g1 : (step s op).2.granted = !(a.step op).2.refused := by rw [Out.granted_abs _ op.producerGrant, r2]
+  have hu := Sp.refused_unchanged a op hop href
+  rw [hu] at r1
+  obtain ⟨e1, _⟩ := step_refines r1 e hale
+  obtain ⟨_, q2⟩ := step_refines e1 op hal2
+  have g2 : (step (step (step s op).1 e).1 op).2.granted = !((a.step e).1.step op).2.refused := by
+    rw [Out.granted_abs _ op.producerGrant, q2]
+  refine ⟨_, ?_, rfl⟩
+  unfold pollWith
+  simp only [g1, href, Bool.not_true, Bool.false_eq_true, if_false, g2, hen, Bool.not_false, if_true]
+
 end MRB
